@@ -679,7 +679,13 @@ func runFrame(fr *frame) {
 					panic(pathLimit{fmt.Sprintf("more than %d instructions on one path", mx)})
 				}
 			}
-			if visitInstr(fr, instr) == kReturn {
+			var k continuation
+			if fr.i.initPhase {
+				k = visitInstrLenient(fr, instr)
+			} else {
+				k = visitInstr(fr, instr)
+			}
+			if k == kReturn {
 				return
 			}
 			// Inv: kNext (continue) or kJump (last instr)
@@ -836,4 +842,34 @@ func Interpret(mainpkg *ssa.Package, mode Mode, sizes types.Sizes, filename stri
 		exitCode = 1
 	}
 	return
+}
+
+// visitInstrLenient is used while executing package initialisers: a target panic raised by a
+// single value-producing instruction (nil dereference of a registry that a body-less dependency
+// would have filled in, ...) yields the zero value instead, and is recorded.
+func visitInstrLenient(fr *frame, instr ssa.Instruction) (k continuation) {
+	v, isVal := instr.(ssa.Value)
+	if !isVal {
+		if _, isStore := instr.(*ssa.Store); !isStore {
+			return visitInstr(fr, instr)
+		}
+	}
+	if _, isCall := instr.(*ssa.Call); isCall {
+		return visitInstr(fr, instr)
+	}
+	defer func() {
+		if r := recover(); r != nil {
+			if isEngineControl(r) {
+				if _, isStr := r.(string); !isStr {
+					panic(r)
+				}
+			}
+			fr.i.sess.noteInitStub("init instruction skipped: " + fr.i.lastPos())
+			if isVal {
+				fr.env[v] = zero(v.Type())
+			}
+			k = kNext
+		}
+	}()
+	return visitInstr(fr, instr)
 }
